@@ -99,8 +99,10 @@ Definition settle (f : fig) : fig := if cr then mkF (R c (fq f)) c else raise c 
 Definition lower (e : nat) (f : fig) : fig := if Nat.ltb e (fp f) then mkF (R e (fq f)) e else f.
 
 (* ---- the price of an item in the document's currency ----
-   (!) a price converted by an exchange rate is rounded twice: at the price's own precision, then
-   to the currency's decimals - also under 'precise' *)
+   (!) a price converted by an exchange rate is rounded to the currency's decimals - also under
+   'precise'; a price written with MORE decimals than the currency is rounded twice: at its own
+   precision, then to the currency's (with no more decimals the product is rounded once: the
+   price is first held at the currency's decimals) *)
 Definition s_item_price (cur : Z) (rates : list xrate) (it : item) : option fig :=
   match it_cur it with
   | None => Some (raise c (of_amount (it_price it)))
@@ -110,7 +112,7 @@ Definition s_item_price (cur : Z) (rates : list xrate) (it : item) : option fig 
     else match find_alt cur (it_alts it) with
          | Some v => Some (raise c (of_amount v))
          | None => match find_rate ic cur rates with
-                   | Some r => Some (mkF (R c (fq (prod p (toQ r)))) c)
+                   | Some r => Some (mkF (R c (fq (prod (raise c p) (toQ r)))) c)
                    | None => None
                    end
          end
@@ -343,7 +345,9 @@ Definition spec (d : doc) : option itotals :=
                         end in
         let total := total1 - match included with Some ti => R ws ti | None => 0 end in
         let twt := total + R ws tax in
-        let payable := twt + match d_rounding d with Some r => R ws (toQ r) | None => 0 end in
+        (* a supplied totals.rounding is itself a presented total: rounded to the currency's decimals,
+           and that figure is what payable adds *)
+        let payable := twt + match d_rounding d with Some r => R ws (R c (toQ r)) | None => 0 end in
         let advs := map (s_advance (mkF twt ws)) (d_advances d) in
         let advances := s_opt_sum advs in
         let due := match advances with Some a => Some (payable - R ws (fq a)) | None => None end in
